@@ -53,9 +53,14 @@ def closed_corr(j1, j2, w1, t1, w2, t2, dagg, o2, temp, same):
 
 
 def physics_case(args):
-    d, temp = args
+    d, temp, dts = args
     sysm, bath, rho, o = model(d, temp)
-    n, dt = 6, 0.25
+    dt = float(dts)
+    n = 6 if dts == "0.25" else 8
+    # time pairs as grid indices; the times handed to the library are the decimal literals a caller would type
+    # (0.3, not 3*0.1 = 0.30000000000000004), so quotients time/dt fall on either side of the integer
+    pairs = [(1, 1), (1, 4), (3, 6), (6, 6), (2, 5)] if n == 6 else \
+        [(1, 1), (3, 6), (3, 8), (6, 7), (7, 8), (7, 7), (6, 6), (2, 5), (3, 3)]
     prm = oq.TempoParameters(dt=dt, epsrel=1e-10)
     pt = oq.pt_tempo_compute(bath, 0.0, n * dt + 0.01, prm, progress_type="silent")
     tt = oq.bath_dynamics.TwoTimeBathCorrelations(sysm, bath, pt, initial_state=rho)
@@ -80,15 +85,23 @@ def physics_case(args):
                                                             f"{np.abs(occ - exp).max():.2e}"))
     for (w1, w2), dagg, (k1, k2) in itertools.product([(0.7, 0.7), (0.7, 1.3), (3.0, 1.3)],
                                                       [(1, 0), (0, 1), (1, 1), (0, 0)],
-                                                      [(1, 1), (1, 4), (3, 6), (6, 6), (2, 5)]):
-        t1, t2 = k1 * dt, k2 * dt
+                                                      pairs):
+        t1, t2 = float(f"{k1 * dt:.10g}"), float(f"{k2 * dt:.10g}")
         j1, j2 = bath.correlations.spectral_density(w1), bath.correlations.spectral_density(w2)
         got = tt.correlation(w1, t1, freq_2=w2, time_2=t2, dagg=dagg, progress_type="silent")
         nev += 1
         exp = closed_corr(j1, j2, w1, t1, w2, t2, dagg, o2, temp, w1 == w2)
         if abs(got - exp) > TOL:
             bad.append((f"bath|correlation|dagg={dagg}|wrong-value",
-                        f"d={d} T={temp} w=({w1},{w2}) t=({t1},{t2}) dagg={dagg}: {got} vs {exp}"))
+                        f"d={d} T={temp} dt={dts} w=({w1},{w2}) t=({t1},{t2}) dagg={dagg}: {got} vs {exp}"))
+        if dagg == (1, 0) and (w1, w2) == (0.7, 1.3):
+            # the same query as the first one a freshly constructed object is asked (empty table of system correlations)
+            fresh = oq.bath_dynamics.TwoTimeBathCorrelations(sysm, bath, pt, initial_state=rho)
+            got = fresh.correlation(w1, t1, freq_2=w2, time_2=t2, dagg=dagg, progress_type="silent")
+            nev += 1
+            if abs(got - exp) > TOL:
+                bad.append((f"bath|correlation|first-query-of-a-fresh-object|wrong-value",
+                            f"d={d} T={temp} dt={dts} w=({w1},{w2}) t=({t1},{t2}) dagg={dagg}: {got} vs {exp}"))
     return {"n": nev, "bad": bad, "size": float(bath.correlations.spectral_density(1.3) * o2)}
 
 
@@ -121,7 +134,7 @@ def axis_case(args):
 
 def run_bath(tier, seed):
     vio = []
-    pc = [(d, t) for d in (2, "2c", 3) for t in (0.0, 0.8)]
+    pc = [(d, t, "0.25") for d in (2, "2c", 3) for t in (0.0, 0.8)] + [(2, 0.8, "0.1"), ("2c", 0.0, "0.1")]
     pres = pmap(physics_case, pc, chunksize=1, seed=seed)
     nev = 0
     for c, r in zip(pc, pres):
